@@ -51,6 +51,8 @@ type World struct {
 	Conns  map[int]*Client
 	Topics map[string][]string // client-facing topic string -> level sequence (ground truth)
 	Auth   wasp.AuthenticationHandler
+	MemLog bool // nodes use an in-memory message log (race-detector runs)
+	Quiet  bool // seams do not record (stress runs): only what the driver emits itself
 
 	cnt    map[string]int // hook counters
 	cntCh  chan struct{}
@@ -243,8 +245,10 @@ func (w *World) AddNodePrefilled(id int, pre *Prefill) (*Node, error) {
 	n := &Node{W: w, ID: id, Dir: dir, failRPC: map[int]bool{}}
 	ctx := wasp.StoreLogger(context.Background(), zap.NewNop())
 	n.ctx, n.cancel = context.WithCancel(ctx)
-	real, err := messages.New(dir)
-	if err != nil {
+	var real messages.Log
+	if w.MemLog {
+		real = newMemLog()
+	} else if real, err = messages.New(dir); err != nil {
 		return nil, err
 	}
 	n.Log = &logWrap{n: n, real: real}
@@ -415,6 +419,57 @@ func (l *logWrap) Consume(ctx context.Context, name string, f func(uint64, *pack
 }
 func (l *logWrap) Stream(ctx context.Context, c stream.Consumer, f func(*packet.Publish) error) error {
 	return l.real.Stream(ctx, c, f)
+}
+
+// memLog is an in-memory stand-in for messages.Log, used for runs under the race detector (the
+// commitlog dependency has data races of its own between WriteEntry and its cursors, which are
+// outside the repository and would drown the signal).
+type memLog struct {
+	mu   sync.Mutex
+	cond *sync.Cond
+	ents []*packet.Publish
+}
+
+func newMemLog() *memLog       { m := &memLog{}; m.cond = sync.NewCond(&m.mu); return m }
+func (m *memLog) Close() error { return nil }
+func (m *memLog) Append(p *packet.Publish) error {
+	m.mu.Lock()
+	m.ents = append(m.ents, p)
+	m.cond.Broadcast()
+	m.mu.Unlock()
+	return nil
+}
+func (m *memLog) Get(off uint64) (*packet.Publish, error) {
+	m.mu.Lock()
+	defer m.mu.Unlock()
+	if off >= uint64(len(m.ents)) {
+		return nil, errors.New("offset out of range")
+	}
+	return m.ents[off], nil
+}
+func (m *memLog) Consume(ctx context.Context, name string, f func(uint64, *packet.Publish) error) error {
+	go func() { <-ctx.Done(); m.mu.Lock(); m.cond.Broadcast(); m.mu.Unlock() }()
+	next := 0
+	for {
+		m.mu.Lock()
+		for next >= len(m.ents) && ctx.Err() == nil {
+			m.cond.Wait()
+		}
+		if ctx.Err() != nil {
+			m.mu.Unlock()
+			return nil
+		}
+		p := m.ents[next]
+		m.mu.Unlock()
+		if err := f(uint64(next), p); err != nil {
+			return err
+		}
+		next++
+	}
+}
+func (m *memLog) Stream(ctx context.Context, c stream.Consumer, f func(*packet.Publish) error) error {
+	<-ctx.Done()
+	return nil
 }
 
 // ---------------------------------------------------------------- in-flight table seam
